@@ -304,6 +304,7 @@ func Run(backend sim.Backend, nStores int, batch1 bool, conc1 bool, keys, splits
 			failMsg = fmt.Sprintf(f, a...)
 		}
 	})
+	defer w.Release()
 	res.W = w
 	done := make(chan struct{})
 	go func() {
